@@ -31,7 +31,7 @@ func init() {
 			"Oracle: handler does not panic or fail; total locked and every pool's sent/withdrawn unchanged; module balance == pools and pool bounds; split applied completely (4 new pools with the constants' amounts, validators pool reduced by their sum and renamed) or not at all; shifted accounts keep amounts and move start/end by exactly one calendar year; " +
 			"migrated minter/distributor params validate and equal the legacy ones field for field; no pool or trace disappears. Non-trivial: hard-coded owner present with >=2 pools and >=20 other owners. Distinct by state hash.",
 		Cases:         func(t string) int { return tierN(t, 240, 8000) },
-		MinNontrivial: func(t string) int { return tierN(t, 20, 800) },
+		MinNontrivial: func(t string) int { return tierN(t, 10, 600) },
 		Run:           runC16,
 	})
 }
@@ -40,7 +40,7 @@ var c16Sum = big.NewInt(0).Mul(big.NewInt(15000000+8000000+9000000+40000000), bi
 
 func runC16(c *fw.Case) {
 	r := c.R
-	nOwners := []int{0, 1, 5, 25, 60, 150, 300}[r.Intn(7)]
+	nOwners := []int{0, 1, 5, 25, 25, 40, 60, 60, 150, 300}[r.Intn(10)]
 	if c.Tier != "thorough" && nOwners > 150 {
 		nOwners = 150
 	}
@@ -110,7 +110,7 @@ func runC16(c *fw.Case) {
 		if namesTaken {
 			avp.VestingPools = append(avp.VestingPools, mkPool("VC round pool", "Other", gen.BigAmount(r, 12)))
 		}
-		if r.Intn(2) == 0 {
+		if r.Intn(4) > 0 {
 			avp.VestingPools = append(avp.VestingPools, mkPool("extra", "Other", gen.BigAmount(r, 12)))
 		}
 		if len(avp.VestingPools) > 0 {
